@@ -71,6 +71,20 @@ def corrupt(case):
     evs = s["events"]
     data = T.obs_bytes(s)
     if kind == "truncate":
+        if c % 2:
+            # events after the thread's final OHe (a last flush leaves OF[ OF] there):
+            # a cut inside them is not masked by "thread not dead"
+            last = evs[-1][1] if evs else 0
+            tail = [[T.plain("OF[", last), T.plain("OF]", last)], [T.plain("OB.", last)],
+                    [T.plain("OB.", last), T.ev("OB.", last, "0000")]][(c // 2) % 3]
+            s["events"] = evs + tail
+            data = T.obs_bytes(s)
+            dec = obs.decode_stream(data)
+            first_tail = dec[len(evs)].offset
+            offs = [o for o in range(first_tail + 1, len(data)) if o not in {e.offset for e in dec}]
+            off = offs[b % len(offs)]
+            s["raw_obs_hex"] = data[:off].hex()
+            return base, "truncate stream %d inside the events that follow the final OHe, at %d of %d" % (si, off, len(data))
         dec = obs.decode_stream(data)
         bounds = {8} | {e.offset for e in dec} | {len(data)}
         offs = [o for o in range(0, len(data)) if o not in bounds]
